@@ -108,6 +108,7 @@ def dump_views(instance):
         "operations_by_machine": [[op.operation_id for op in ops] for ops in instance.operations_by_machine],
         "durations_matrix": [list(r) for r in instance.durations_matrix],
         "machines_matrix": [[list(c) if isinstance(c, (list, tuple)) else c for c in r] for r in instance.machines_matrix],
+        "durations_matrix_array": [[None if v != v else float(v) for v in r] for r in instance.durations_matrix_array.tolist()],
         "machine_loads": list(instance.machine_loads),
         "job_durations": list(instance.job_durations),
         "max_duration_per_machine": list(instance.max_duration_per_machine),
